@@ -18,7 +18,8 @@ PARTIAL = ["totality (that sample() completes) is not a Lean theorem: the compos
            "on every generated table under every strategy and its schema, dtypes and cell domains are checked",
            "known finding: RecursionError for float columns holding two values closer than ~2^-900 of the column range (C07 recursion-depth-add_row)",
            "known finding F14: synthesis raises ValueError when one cluster's microtable is empty while the table so far is not (raises-empty-cluster); "
-           "the model has the same error branch (doPatch / doStitch throw `value`)"]
+           "the model has the same error branch (doPatch / doStitch throw `value`)",
+           "known finding F19: the mirror image - the table so far is empty while a derived cluster is not: ValueError('Attempted a stitch with no rows.') (raises-empty-left-table)"]
 ASSUMPTIONS = []
 TRUSTED = ["typed-table generator (1-7 columns, 1..400 rows, all kinds, nulls in float/str/timestamp columns), strategy generator"]
 
@@ -104,9 +105,10 @@ def stream_sample(ctx, ntables):
                 # known finding F14: a cluster whose microtable comes out empty while the table so far is not (patch: randint(0, -1);
                 # stitch: the deliberate "Empty sequence in cluster")
                 empty_cluster = isinstance(e, ValueError) and ("empty range in randrange(0, 0)" in str(e) or "Empty sequence in cluster" in str(e))
+                empty_left = isinstance(e, ValueError) and "Attempted a stitch with no rows" in str(e)       # known finding F19: the table so far is empty, a derived cluster is not
                 ctx.oracle_fail(f"synthesis raised {type(e).__name__}: {str(e)[:200]} ({desc})",
                                 {"table": ES.typed_summary(t), "strategy": desc, "head": t["df"].head(5).astype(str).values.tolist()},
-                                "raises-empty-cluster" if empty_cluster else "raises"); continue
+                                "raises-empty-cluster" if empty_cluster else "raises-empty-left-table" if empty_left else "raises"); continue
             multi = len(syn.clusters.derived_clusters) > 0
             S.count((repr(t["df"].values.tolist()), desc, repr(t["ap"])), ncols >= 3 or multi,
                     {"table": ES.typed_summary(t), "strategy": desc, "clusters": PS.clusters_str(syn.clusters), "rows_out": len(out)}, tag=desc.split("-")[0] + ("/multi" if multi else ""))
@@ -129,8 +131,10 @@ def stream_sample(ctx, ntables):
                 ctx.oracle_fail("RecursionError during synthesis", {"table": ES.typed_summary(t2), "strategy": desc}, "recursion-depth-add_row"); break
             except Exception as e:
                 empty_cluster = isinstance(e, ValueError) and ("empty range in randrange(0, 0)" in str(e) or "Empty sequence in cluster" in str(e))
+                empty_left = isinstance(e, ValueError) and "Attempted a stitch with no rows" in str(e)
                 ctx.oracle_fail(f"synthesis raised {type(e).__name__}: {str(e)[:200]} ({desc})",
-                                {"table": ES.typed_summary(t2), "strategy": desc, "columns": list(d.columns)}, "raises-empty-cluster" if empty_cluster else "raises"); break
+                                {"table": ES.typed_summary(t2), "strategy": desc, "columns": list(d.columns)},
+                                "raises-empty-cluster" if empty_cluster else "raises-empty-left-table" if empty_left else "raises"); break
             S.count((repr(d.values.tolist()), desc, repr(t["ap"])), True, {"table": ES.typed_summary(t2), "strategy": desc, "rows_out": len(out)}, tag="strategy-reused")
             check_output(ctx, t2, out, desc)
     # one MlClustering object (target by name) used for a table and then for the same table without one of the other columns
